@@ -2034,14 +2034,14 @@ theorem rows_find (st : St) (hk : (st.peers.map (·.1)).Nodup) (e : Ip × Peer) 
 def HistWF (g : GlobalCfg) (groups : List Group) (peers : List PeerCase) (ops : List Op) : Prop :=
   confedIdOk g.confed ∧ WFGroups groups ∧ (∀ pc ∈ peers, pc.params.dyn = false) ∧ OpsOk ops
 
-/-- **master theorem, histories.**  The reference checker accepts every history the model produces;
+/-- **master theorem, histories on a loaded configuration.**  The reference checker accepts every history the model produces;
     the only thing it may report is one of the three faces of the open finding F16c, and only in a
     history that contains a shutdown / reset / disable / delete. -/
-theorem checkHist_model (g : GlobalCfg) (groups : List Group) (peers : List PeerCase) (ops : List Op)
-    (hwf : HistWF g groups peers ops) (h : HistObs) (hr : runHist g groups peers ops = .ok h) :
-    HitOr (ops.any admOp) (Spec.checkHist g groups peers ops h) := by
+theorem checkHistOn_model (g : GlobalCfg) (groups : List Group) (peers : List PeerCase) (ops : List Op)
+    (hwf : HistWF g groups peers ops) (h : HistCore) (hr : runHistOn g groups peers ops = .ok h) :
+    HitOr (ops.any admOp) (Spec.checkHistOn g groups peers ops h) := by
   obtain ⟨hcid, hgw, hdyn, hops⟩ := hwf
-  unfold runHist at hr
+  unfold runHistOn at hr
   simp only [bind, Bind.bind] at hr
   obtain ⟨g1, g2, g3, g4, g5, g6⟩ := setup_glob peers (initSt g groups)
   obtain ⟨hinv, hlive, hstat⟩ := setup_inv peers (initSt g groups) (inv_init g groups) rfl (by simp [initSt]) hdyn
@@ -2063,7 +2063,7 @@ theorem checkHist_model (g : GlobalCfg) (groups : List Group) (peers : List Peer
           rw [g3] at this; exact this)
       rw [had] at this
       rw [g3]; exact this
-    unfold Spec.checkHist
+    unfold Spec.checkHistOn
     simp only [hset, Spec.Verdict.andThen]
     have hlen : ((sortBy (·.addr) (st.peers.map (setupRowOf st.confed))).length
           != (added.filter id).length) = false := by
@@ -2163,9 +2163,9 @@ theorem runOps_ok : ∀ (ops : List Op) (st : St), WFGroups st.groups → OpsOk 
       simp only [Bool.false_eq_true, if_false, htl, pure]
       exact ⟨_, rfl⟩
 
-theorem runHist_ok (g : GlobalCfg) (groups : List Group) (peers : List PeerCase) (ops : List Op)
-    (hwf : HistWF g groups peers ops) : ∃ h, runHist g groups peers ops = .ok h := by
-  unfold runHist
+theorem runHistOn_ok (g : GlobalCfg) (groups : List Group) (peers : List PeerCase) (ops : List Op)
+    (hwf : HistWF g groups peers ops) : ∃ h, runHistOn g groups peers ops = .ok h := by
+  unfold runHistOn
   simp only [bind, Bind.bind]
   have hg := (setup_glob peers (initSt g groups)).2.2.2.1
   obtain ⟨obs, ho⟩ := runOps_ok ops (setupPeers (initSt g groups) peers).1 (by rw [hg]; exact hwf.2.1) hwf.2.2.2
